@@ -1,3 +1,147 @@
-class Builder:
+"""Builder: the subset of flatbuffers.Builder that pysnark.zkinterface uses, following the FlatBuffers wire format
+(buffer built back to front; scalars little-endian and aligned to their size; vectors = uint32 length + elements;
+tables = int32 offset to a vtable (uint16 vtable size, uint16 object size, uint16 field offsets) + fields;
+offsets (uoffset) are relative and unsigned; identical vtables are shared)."""
+import struct
+
+
+class Builder(object):
     def __init__(self, initialSize=1024):
-        raise NotImplementedError("flatbuffers stub builder not yet implemented")
+        self.Bytes = bytearray(max(0, initialSize))
+        self.head = len(self.Bytes)
+        self.minalign = 1
+        self.nested = False
+        self.finished = False
+        self.vtables = []
+        self.current_vtable = None
+        self.objectEnd = None
+        self.vectorNumElems = None
+
+    # ---- low level
+    def Offset(self): return len(self.Bytes) - self.head
+
+    def _grow(self):
+        old = self.Bytes
+        n = max(1, len(old)) * 2
+        nb = bytearray(n)
+        nb[n - len(old):] = old
+        self.head += n - len(old)
+        self.Bytes = nb
+
+    def Pad(self, n):
+        for _ in range(n): self._place(b"\x00")
+
+    def _place(self, bs):
+        self.head -= len(bs)
+        self.Bytes[self.head:self.head + len(bs)] = bs
+
+    def Prep(self, size, additionalBytes):
+        if size > self.minalign: self.minalign = size
+        alignSize = (~(len(self.Bytes) - self.head + additionalBytes)) + 1
+        alignSize &= (size - 1)
+        while self.head < alignSize + size + additionalBytes: self._grow()
+        self.Pad(alignSize)
+
+    def _prepend(self, fmt, size, x):
+        self.Prep(size, 0)
+        self._place(struct.pack(fmt, x))
+
+    def PrependByte(self, x): self._prepend("<B", 1, x)
+    PrependUint8 = PrependByte
+    def PrependBool(self, x): self._prepend("<B", 1, 1 if x else 0)
+    def PrependUint16(self, x): self._prepend("<H", 2, x)
+    def PrependUint32(self, x): self._prepend("<I", 4, x)
+    def PrependInt32(self, x): self._prepend("<i", 4, x)
+    def PrependUint64(self, x): self._prepend("<Q", 8, x)
+    def PrependInt64(self, x): self._prepend("<q", 8, x)
+
+    def PrependUOffsetTRelative(self, off):
+        self.Prep(4, 0)
+        if not (off <= self.Offset()): raise ValueError("offset out of range")
+        self._place(struct.pack("<I", self.Offset() - off + 4))
+
+    # ---- vectors
+    def StartVector(self, elemSize, numElems, alignment):
+        if self.nested: raise RuntimeError("nested construction")
+        self.nested = True
+        self.vectorNumElems = numElems
+        self.Prep(4, elemSize * numElems)
+        self.Prep(alignment, elemSize * numElems)
+        return self.Offset()
+
+    def EndVector(self, vectorNumElems=None):
+        if not self.nested: raise RuntimeError("not in a vector")
+        self.nested = False
+        n = self.vectorNumElems if vectorNumElems is None else vectorNumElems
+        self._place(struct.pack("<I", n))
+        return self.Offset()
+
+    # ---- tables
+    def StartObject(self, numfields):
+        if self.nested: raise RuntimeError("nested construction")
+        self.current_vtable = [0] * numfields
+        self.objectEnd = self.Offset()
+        self.nested = True
+
+    def Slot(self, slotnum): self.current_vtable[slotnum] = self.Offset()
+
+    def PrependUOffsetTRelativeSlot(self, o, x, d):
+        if x != d:
+            self.PrependUOffsetTRelative(x); self.Slot(o)
+
+    def PrependUint64Slot(self, o, x, d):
+        if x != d:
+            self.PrependUint64(x); self.Slot(o)
+
+    def PrependUint8Slot(self, o, x, d):
+        if x != d:
+            self.PrependUint8(x); self.Slot(o)
+
+    def PrependBoolSlot(self, o, x, d):
+        if x != d:
+            self.PrependBool(x); self.Slot(o)
+
+    def EndObject(self):
+        if not self.nested: raise RuntimeError("not in an object")
+        self.nested = False
+        # placeholder for the offset to the vtable
+        self.PrependInt32(0)
+        objectOffset = self.Offset()
+        vt = list(self.current_vtable)
+        while vt and vt[-1] == 0: vt.pop()
+        fields = [(objectOffset - f) if f != 0 else 0 for f in vt]
+        objectSize = objectOffset - self.objectEnd
+        image = struct.pack("<HH", (len(fields) + 2) * 2, objectSize) + b"".join(struct.pack("<H", f) for f in fields)
+        existing = None
+        for off in reversed(self.vtables):
+            start = len(self.Bytes) - off
+            if bytes(self.Bytes[start:start + len(image)]) == image and struct.unpack_from("<H", self.Bytes, start)[0] == len(image):
+                existing = off; break
+        objectStart = len(self.Bytes) - objectOffset
+        if existing is None:
+            for f in reversed(fields): self.PrependUint16(f)
+            self.PrependUint16(objectSize)
+            self.PrependUint16((len(fields) + 2) * 2)
+            struct.pack_into("<i", self.Bytes, objectStart, self.Offset() - objectOffset)
+            self.vtables.append(self.Offset())
+        else:
+            struct.pack_into("<i", self.Bytes, objectStart, existing - objectOffset)
+        self.current_vtable = None
+        return objectOffset
+
+    # ---- finish
+    def _finish(self, rootTable, sizePrefix):
+        prepSize = 4 + (4 if sizePrefix else 0)
+        self.Prep(self.minalign, prepSize)
+        self.PrependUOffsetTRelative(rootTable)
+        if sizePrefix:
+            self.PrependInt32(len(self.Bytes) - self.head)
+        self.finished = True
+        return self.head
+
+    def Finish(self, rootTable): return self._finish(rootTable, False)
+    def FinishSizePrefixed(self, rootTable): return self._finish(rootTable, True)
+
+    def Output(self):
+        if not self.finished: raise RuntimeError("not finished")
+        return self.Bytes[self.head:]
